@@ -4,6 +4,7 @@ import inspect
 import itertools
 import sys
 import textwrap
+import threading
 import typing
 from collections import OrderedDict, defaultdict
 from dataclasses import dataclass, field, replace
@@ -110,7 +111,7 @@ class LazySignature(inspect.Signature):
 
 def bootstrap_dispatch(ov, name):
     def first_entry(*args, **kwargs):
-        ov.compile()
+        ov.ensure_compiled()
         return ov.dispatch(*args, **kwargs)
 
     dispatch = FunctionType(
@@ -370,6 +371,7 @@ class Ovld:
         """Initialize an Ovld."""
         self.id = next(_current_id)
         self._compiled = False
+        self._build_lock = threading.RLock()
         self.linkback = linkback
         self.children = []
         self.allow_replacement = allow_replacement
@@ -489,7 +491,9 @@ class Ovld:
 
     def ensure_compiled(self):
         if not self._compiled:
-            self.compile()
+            with self._build_lock:
+                if not self._compiled:
+                    self.compile()
 
     def compile(self):
         """Finalize this overload (see _compile).
@@ -498,16 +502,17 @@ class Ovld:
         that the next call attempts to compile it again instead of
         dispatching over a partially filled table.
         """
-        try:
-            self._compile()
-        except BaseException:
-            self._compiled = False
-            dispatch = getattr(self, "dispatch", None)
-            if dispatch is not None:
-                dispatch.__code__ = dispatch.__bootstrap_code__
-                dispatch.__defaults__ = None
-                dispatch.__kwdefaults__ = None
-            raise
+        with self._build_lock:
+            try:
+                self._compile()
+            except BaseException:
+                self._compiled = False
+                dispatch = getattr(self, "dispatch", None)
+                if dispatch is not None:
+                    dispatch.__code__ = dispatch.__bootstrap_code__
+                    dispatch.__defaults__ = None
+                    dispatch.__kwdefaults__ = None
+                raise
 
     def _compile(self):
         """Finalize this overload.
@@ -535,18 +540,22 @@ class Ovld:
         _verif.point("compile.generated", ov=self.id)
         if not hasattr(self, "dispatch"):
             self.dispatch = bootstrap_dispatch(self, name=self.shortname)
-        self.dispatch.__code__ = rename_code(dispatch.__code__, self.shortname)
-        _verif.point("compile.swapped", ov=self.id)
-        self.dispatch.__kwdefaults__ = dispatch.__kwdefaults__
-        self.dispatch.__annotations__ = dispatch.__annotations__
-        self.dispatch.__defaults__ = dispatch.__defaults__
-        self.dispatch.__globals__.update(dispatch.__globals__)
-        self.dispatch.map = self.map
-        self.dispatch.__doc__ = self.mkdoc()
 
         for key, fn in list(self.defns.items()):
             self.register_signature(key, fn)
             _verif.point("compile.registered", ov=self.id)
+
+        # The generated entry point is swapped in only once the table is
+        # complete: until then, calls go through the bootstrap entry, which
+        # waits for the build to finish.
+        self.dispatch.__globals__.update(dispatch.__globals__)
+        self.dispatch.__kwdefaults__ = dispatch.__kwdefaults__
+        self.dispatch.__annotations__ = dispatch.__annotations__
+        self.dispatch.__defaults__ = dispatch.__defaults__
+        self.dispatch.map = self.map
+        self.dispatch.__doc__ = self.mkdoc()
+        self.dispatch.__code__ = rename_code(dispatch.__code__, self.shortname)
+        _verif.point("compile.swapped", ov=self.id)
 
         self._compiled = True
         _verif.point("compile.done", ov=self.id)
@@ -634,8 +643,7 @@ class Ovld:
             return ov
 
     def __get__(self, obj, cls):
-        if not self._compiled:
-            self.compile()
+        self.ensure_compiled()
         return self.dispatch.__get__(obj, cls)
 
     @_setattrs(rename="dispatch")
